@@ -400,6 +400,21 @@ def c09_binary(s, tier, work):
     return [j]
 
 
+def bin_restart_job(tag, work):
+    """the pool binary on its persistent store, killed and restarted on the same data directory: captured requests
+    (node- and wallet-signed) are refused before and after"""
+    C.build(("real", "node"))
+    name = tag + "-binrestart"
+    tp = os.path.join(work, name + ".ndjson")
+    st = os.path.join(work, name + ".status")
+    _, status, rc, out = C.run_sim({}, work, name, binary="vipreal", args=["binrestart", os.path.join(C.BIN, "vipnode"), os.path.join(work, name + "-dir"), tp, st])
+    if status != "OK":
+        raise C.Machinery("binrestart did not finish: %r\n%s" % (status, out[-2000:]))
+    j = Job(name, None, "VipPoolCfg", "VipPoolCfg.cfg", "all", binary="vipreal")
+    j.trace = tp
+    return [j]
+
+
 def c03_binary(s, tier, work):
     """the built pool binary started with every --contract.min-balance / --contract.price of module VipPoolCfg"""
     C.build(("real", "node"))
@@ -437,6 +452,7 @@ def c05(pid, tier, work, replay):
                       chunks=1 if tier == "quick" else 4)
     jobs += fine_jobs("c05p", "C05", s, tier, work, weights=dict(stale=30, legacy=10, update=25, sleep=14, forged=3))
     jobs += nonce_race_jobs("c05race", s, tier, work)
+    jobs += bin_restart_job("c05", work)
     return trace_family(
         pid, tier, work, [("VipStoreMC", "VipStoreMC_nonce.cfg")], jobs,
         ["nonce values are abstracted to 1/1000 s units relative to the run epoch"] + POOL_ASSUME,
@@ -590,7 +606,7 @@ def c13(pid, tier, work, replay):
     readers = pool_jobs("c13read", "C13race", s + 3, sized(tier, 60, 800), 0, work, cfg=dict(RACE_CFG, linkread=True), weights=dict(burst=1),
                         chunks=1 if tier == "quick" else 4, drivers=("badger",), binary="viprace")
     return trace_family(
-        pid, tier, work, [("VipStoreMC", "VipStoreMC_bal.cfg")], [cj, rj] + readers,
+        pid, tier, work, [("VipStoreMC", "VipStoreMC_bal.cfg")], [cj, rj] + readers + bin_restart_job("c13", work),
         ["a crash is a process kill (SIGKILL): what the OS has accepted survives; power loss is out of scope",
          "the badger directory is opened exactly with the options pool.go uses (badger.DefaultOptions) in the crash rounds",
          "nonce records of older on-disk formats are discarded by the migration by design: no verdict on nonces after a downgrade"],
